@@ -359,6 +359,9 @@ func (fc *fnCtx) constList(p *packages.Package, ex ast.Expr, depth int) ([]int64
 
 // lexpr translates a list-valued expression (slice / string).
 func (fc *fnCtx) lexpr(ex ast.Expr) (string, error) {
+	if s, handled, err := fc.extLexpr(ex); handled { // wp dmmirror (ext_dmmirror.go)
+		return s, err
+	}
 	if tv, ok := fc.p.TypesInfo.Types[ex]; ok && tv.Value != nil && tv.Value.Kind() == constant.String {
 		if id, ok := ex.(*ast.Ident); ok {
 			return fc.table(id.Name, stringBytes(constant.StringVal(tv.Value))), nil
@@ -466,6 +469,9 @@ func assignedAnywhere(p *packages.Package, obj *types.Var) bool {
 // mexpr: expression forms that only exist in the monadic target.  handled=false: fall through to expr.
 func (fc *fnCtx) mexpr(ex ast.Expr) (string, bool, error) {
 	fail := func(f string, a ...interface{}) (string, bool, error) { return "", true, fmt.Errorf(f, a...) }
+	if s, handled, err := fc.extMexpr(ex); handled { // wp dmmirror (ext_dmmirror.go)
+		return s, true, err
+	}
 	switch x := ex.(type) {
 	case *ast.SelectorExpr:
 		if key, lt, ok := fc.fieldKey(x); ok {
@@ -899,6 +905,9 @@ func (fc *fnCtx) fieldKey(x *ast.SelectorExpr) (string, string, bool) {
 		if st.Field(j).Name() == x.Sel.Name {
 			lt, err := leanTypeM(st.Field(j).Type())
 			if err != nil {
+				if flt, ok := fc.extFieldType(st, j); ok { // wp dmmirror: function-valued field = Int selector
+					return id.Name + "_" + x.Sel.Name, flt, true
+				}
 				return "", "", false
 			}
 			return id.Name + "_" + x.Sel.Name, lt, true
@@ -1744,6 +1753,9 @@ func (fc *fnCtx) lexprOrMake(ex ast.Expr) (string, error) {
 }
 
 func (fc *fnCtx) massign(x *ast.AssignStmt, rest []ast.Stmt, lvl int) (string, error) {
+	if s, handled, err := fc.extAssign(x, rest, lvl); handled { // wp dmmirror (ext_dmmirror.go)
+		return s, err
+	}
 	cont := func(prefix string) (string, error) {
 		r, err := fc.mblock(rest, lvl)
 		if err != nil {
@@ -2259,6 +2271,7 @@ func assignedIn3(stmts []ast.Stmt) (assigned, declared, whole map[string]bool) {
 			return true
 		})
 	}
+	extAssigned(assigned, whole) // wp dmmirror
 	return
 }
 
@@ -2325,6 +2338,7 @@ func (fc *fnCtx) usedNames(nodes []ast.Node) map[string]bool {
 			return true
 		})
 	}
+	fc.extUsed(nodes, used) // wp dmmirror
 	return used
 }
 
@@ -2972,6 +2986,10 @@ func genFuncM(p *packages.Package, e entry) (string, error) {
 	var params []string
 	var sparams []sparam
 	nplain := 0
+	params, gerr := fc.extGlobals(fd, params) // wp dmmirror: init-filled package-level tables are leading parameters
+	if gerr != nil {
+		return "", gerr
+	}
 	for _, fl := range fields {
 		t := p.TypesInfo.TypeOf(fl.Type)
 		lt, err := leanTypeM(t)
@@ -2984,6 +3002,8 @@ func genFuncM(p *packages.Package, e entry) (string, error) {
 					// the fields are locals of the translation (a write rebinds them, SSA style)
 					for j := 0; j < st.NumFields(); j++ {
 						if flt, err := leanTypeM(st.Field(j).Type()); err == nil {
+							fc.declare(n.Name+"_"+st.Field(j).Name(), flt)
+						} else if flt, ok := fc.extFieldType(st, j); ok { // wp dmmirror
 							fc.declare(n.Name+"_"+st.Field(j).Name(), flt)
 						}
 					}
@@ -3015,6 +3035,7 @@ func genFuncM(p *packages.Package, e entry) (string, error) {
 	// what the function writes through its pointer parameters is part of its result
 	assigned0, _ := assignedIn(fd.Body.List)
 	var outTypes []string
+	outTypes = fc.extInitOuts(outTypes) // wp dmmirror: `init` returns the tables it fills
 	for _, sp := range sparams {
 		for j := 0; j < sp.st.NumFields(); j++ {
 			key := sp.name + "_" + sp.st.Field(j).Name()
@@ -3131,10 +3152,12 @@ func genFuncM(p *packages.Package, e entry) (string, error) {
 		return "", fmt.Errorf("no translatable result")
 	}
 	fc.m.retType = strings.Join(rts, " × ")
+	fc.extScanTracked(fd) // wp dmmirror: locals whose capacity the function observes
 	body, err := fc.mblock(fd.Body.List, 1)
 	if err != nil {
 		return "", err
 	}
+	body = fc.extBody(body)
 	var recvFields []string
 	for i := len(sparams) - 1; i >= 0; i-- {
 		sp := sparams[i]
@@ -3179,6 +3202,7 @@ func genFuncM(p *packages.Package, e entry) (string, error) {
 				outs: outs, fuel: fc.m.fuelUsed}
 		}
 	}
+	fc.extRegister(e, fd, nres) // wp dmmirror: callable with struct arguments / init tables / fuel
 	return fc.emit(e.pkg+"."+e.name, params, body), nil
 }
 
